@@ -4,6 +4,7 @@ package cstate
 
 import (
 	"github.com/kardiachain/go-kardia/kai/kaidb"
+	"github.com/kardiachain/go-kardia/lib/common"
 	"github.com/kardiachain/go-kardia/lib/log"
 	"github.com/kardiachain/go-kardia/types"
 )
@@ -22,6 +23,12 @@ func VerifUpdateState(state LatestBlockState, blockID types.BlockID, header *typ
 // staking contract -> change set against the current NextValidators).
 func VerifCalculateValidatorSetUpdates(lastVals []*types.Validator, vals []*types.Validator) []*types.Validator {
 	return calculateValidatorSetUpdates(lastVals, vals)
+}
+
+// VerifValInfoKeyAt exposes valInfoKeyAt (key of the per-height validator-set record): the harness deletes such
+// records to obtain a database as the code before commit 83d442d wrote it.
+func VerifValInfoKeyAt(hash common.Hash, height uint64) common.Hash {
+	return valInfoKeyAt(hash, height)
 }
 
 // VerifLoadStateAtHeight exposes loadStateAtHeight (what Load() does for the head height) for an arbitrary
